@@ -75,7 +75,7 @@ claim(
 claim(
     "C20",
     "runtime monitor on a virtual-time loop in four strata (S4: concurrent warm-up without eviction, then sequential eviction pressure vs a reference LRU ordered by use): S1 sequential lock-step differential vs a reference LRU (functools.lru_cache / reference with ttl), S2 strict concurrent history oracle (unique tokens, overlap, staleness, cross-key blocking, retention), S3 same oracle with F3 symptoms classified by mechanism precondition",
-    "Held (apart from the listed known findings F3, F16) on every executed history: seeded sequential sequences over maxsize/typed/ttl "
+    "Held (apart from the listed known findings F3, F16, F19) on every executed history: seeded sequential sequences over maxsize/typed/ttl "
     "with virtual clock jumps, seeded concurrent histories with suspensions, failures, scope and native cancellations, cache_clear() agents, "
     "virtual sleeps that let entries expire under concurrent callers.",
     "functools.lru_cache as reference where it applies; retained results counted via the public lru_cache_items RunVar; cache_info() not judged concurrently",
